@@ -132,7 +132,10 @@ def seeds_case(rng, quick):
         results = subproc.run_many(jobs)
         for s, r in zip(seeds, results):
             for (b, v), o in zip(variants, r):
-                ref = impl.loads(b)
+                try:
+                    ref = impl.loads(b)
+                except Exception as e:  # noqa: BLE001
+                    return "a valid script with comments and blank lines (LF line ends) is refused: %s: %s" % (type(e).__name__, str(e)[:120])
                 if o.get("out") != "ok":
                     return "under PYTHONHASHSEED=%s a layout variant (line ends %r) of a valid script fails: %s %s" % (s, "\r\n" if "\r\n" in v else "\r" if "\r" in v else "\n", o.get("cls"), str(o.get("msg"))[:80])
                 if len(o["obs"]["ops"]) != len(ref.operations):
